@@ -411,9 +411,13 @@ def gen_part(rng, pid, plan, has_pickup, profile):
         ks2 = {"t": mm["s"], "fifths": rng.choice((-2, 3, 0, 5)), "mode": rng.choice(("major", "minor"))}
         if (ks2["fifths"], ks2["mode"]) != (part["keysigs"][0]["fifths"], part["keysigs"][0]["mode"]):  # a repeated identical signature is not a change
             part["keysigs"].append(ks2)
+    same_clef = rng.choice((("G", 2), ("F", 4))) if (nstaves > 1 and rng.random() < 0.2) else None
     for s in range(1, nstaves + 1):
         sign, line = (("G", 2) if s == 1 else ("F", 4))
-        if rng.random() < 0.15:
+        if same_clef is not None:
+            # both hands in the same clef (a passage high or low on the keyboard)
+            sign, line = same_clef
+        elif rng.random() < 0.15:
             sign, line = rng.choice((("C", 3), ("C", 4), ("G", 2), ("F", 4)))
         part["clefs"].append({"t": 0, "staff": s, "sign": sign, "line": line, "oct": rng.choice((0, 0, 0, -1, 1)) if rng.random() < 0.2 else 0})
     if len(measures) > 1 and rng.random() < 0.15:
